@@ -1031,6 +1031,8 @@ class AnsiString:
             raise TypeError(f'value is invalid type: {type(value)}')
 
         shift = len(self._s)
+        # The settings on my last character, lowest precedence first
+        settings_at_end = self.ansi_settings_at(shift - 1)
         self._s += incoming_str
         find_settings = []
         replace_settings = []
@@ -1041,6 +1043,11 @@ class AnsiString:
                     key == shift
                     and settings.add
                     and self._fmts[key].rem[:len(settings.add)] == settings.add
+                    # ... and they have the same precedence among each other on my last character
+                    and [
+                        s for s in settings_at_end
+                        if __class__._find_setting_reference(s, self._fmts[key].rem[:len(settings.add)]) >= 0
+                    ] == settings.add
                 ):
                     # Special case - the string being added contains same formatting as end of my string.
                     # Because the settings work based on references instead of values, the settings not only
